@@ -1,121 +1,110 @@
 """C16  Parsimony scores are minimal change counts and pure functions of tree and matrix.
 
-Oracle (independent of DendroPy's Fitch pass and of its alphabets): Sankoff dynamic programming with unit costs on the
-spec of the tree; leaf cost 0 inside its state set and infinite outside; symbol -> state-set tables (IUPAC etc.) are
-written here.  For <= 5 leaves and <= 4 observed states the DP itself is cross-checked by brute force over all
-assignments of states to internal nodes.  Clauses judged per scoring call (hook on parsimony_score):
-  minimal        score == sum_c w_c * min #changes(c)
+Oracle (independent of DendroPy's Fitch pass and of its alphabets, _c16_lib): Sankoff dynamic programming with unit costs on the
+spec of the tree; leaf cost 0 inside its state set and infinite outside; symbol -> state-set tables (IUPAC etc.) are written by hand,
+those of generated alphabets are kept while the alphabet is declared.  For <= 5 leaves and <= 4 observed states the DP is
+cross-checked by brute force over all assignments of states to internal nodes.
+
+Every case is a HISTORY of operations on one tree object (and on copies made of it on the way):
+  score        parsimony_score with a new matrix / the same matrix object again; every option (gaps_as_missing, weights,
+               score_by_character_list) omitted, by keyword or positional; through model.parsimony or calculate.treescore
+  direct pass  taxon_state_sets_map + fitch_down_pass with state_sets_attr_name None / a name never used on this object / the
+               default name on an object that never carried it; nodes as generator or list, positional, by keyword or through the
+               legacy keyword postorder_nodes; the same caller-owned map used twice
+  in between   fitch_up_pass, calls that fail half-way, in-place edits of the matrix, re-rooting / re-seeding / child shuffling /
+               pruning of the SCORED object through the library, copies (Tree(), clone(0/1), copy.copy, extract_tree, TreeList copy,
+               deepcopy of (tree, matrix)) on which the history continues
+Clauses judged for every value-returning operation against the oracle of the CURRENT structure (read back from the raw child lists):
+  minimal        score == sum_c w_c * min #changes(c)      (weights: ints, dyadic floats, ints > 2**31, Fractions; list or tuple)
   per-character  score_by_character_list[c] == w_c * min #changes(c), and the list sums to the total
-  root/order     the same value after child shuffling and re-rooting (unrooted re-drawing of the same tree)
-  pure           scoring the SAME tree object again / after scoring it with other matrices or options (history journal)
-                 gives the value of a fresh copy; so does scoring a clone of a tree that was scored before
-Soundness limits: fully bifurcating trees only (root of an unrooted tree may be a trifurcation); gaps_as_missing=False
-follows the documented convention ('-' extra state, '?' = all states + gap, N/X = all residues without gap); the protein
-stop symbol '*' is not generated (whether X covers it is a convention, not part of the statement)."""
-import itertools
+  root/order     the same value on a fresh tree after child shuffling and re-rooting, rooting flag drawn independently
+  pure           value of a fresh copy whatever happened to the object before
+Soundness limits: fully bifurcating trees only (the root may be a trifurcation = unrooted drawing); gaps_as_missing=False follows
+the documented convention ('-' extra state, '?' = all states + gap, N/X = all residues without gap); the protein stop symbol '*' is
+not generated; generated multistates never contain the gap state; a direct pass that re-uses an attribute name already present on the
+nodes is NOT judged (documented: stored state sets are re-used); fitch_up_pass is entered but nothing is demanded of it; whether the
+caller's state-set map is touched is only reported when a value is wrong as well."""
+import copy
+import fractions
 import random
+import warnings
 
 from .. import ref, gen, bridge, core
 from ..mon.hooks import Hooks
+from . import _c16_lib as lib
+from ._c16_lib import oracle_scores
 
 PROP = "C16"
-LEVEL_TEXT = 'parsimony_score is hooked (history journal per tree object) and every result is compared with an independent Sankoff DP (cross-checked by brute force on small cases) on the same tree/matrix, for DNA/RNA/protein/standard matrices over the full symbol set, weights, both gap treatments, after 0-3 earlier scoring calls on the same object, on clones of scored trees, and after re-rooting/child shuffling.'
+LEVEL_TEXT = ('parsimony_score (both entry points) is hooked (history journal per tree object) and every result of parsimony_score and of a direct '
+              'taxon_state_sets_map + fitch_down_pass is compared with an independent Sankoff DP (cross-checked by brute force on small cases) on '
+              'the structure the tree has at that moment, for all seven built-in discrete matrix types, generated alphabets with nested / '
+              'symbol-less ambiguous and polymorphic states, matrices parsed from NEXUS with {..} and (..) cells, integer / dyadic / big / '
+              'Fraction weights, both gap treatments incl. the default, every way of passing the options, namespaces larger than the tree, '
+              'n = 1 and 0 columns, inside histories of scoring calls, up passes, failing calls, matrix edits, in-place re-rooting / pruning and copies.')
 LEVEL_NOTE = 'Trusted: the Sankoff oracle and the symbol tables written in the module; bifurcating trees only.'
 LEVEL = "exploration"
-TECHNIQUE = "runtime monitoring: hook on parsimony_score with history journal per tree object; independent Sankoff/brute-force oracle"
-RULE = ("(bifurcating tree shape x rooting) x (data type, matrix over the full symbol set incl. ambiguity codes, gaps, missing) x weights x "
-        "gaps_as_missing x history of earlier scoring calls on the same tree object; non-trivial = true score > 0; distinct = (canonical tree, "
-        "matrix content, options, history length)")
+TECHNIQUE = ("runtime monitoring: generated operation histories on one tree object; hook on parsimony_score with history journal per tree object; "
+             "independent Sankoff/brute-force oracle on the structure read back from the raw child lists")
+RULE = ("(bifurcating tree shape incl. a single leaf x rooting flag True/False/None x namespace with extra taxa) x (matrix type: 7 built-in, generated "
+        "alphabet, NEXUS-parsed; matrix over the full symbol set incl. ambiguity codes, multistates, gaps, missing; 0..n columns) x weight vector "
+        "class x gaps_as_missing incl. default x way of passing options x entry point x history of earlier operations on the same tree object; "
+        "non-trivial = true score > 0; distinct = (canonical tree, matrix content, options, history)")
 REACH = ["parsimony:parsimony_score", "parsimony:fitch_down_pass", "charmatrixmodel:DiscreteCharacterMatrix.taxon_state_sets_map",
-         "parsimony:fitch_up_pass"]
-MIN_EVENTS = {"score-compared-with-oracle": (2000, 20000), "repeat-call-compared": (1500, 15000), "bruteforce-crosscheck": (100, 1000),
-              "rerooted-compared": (300, 3000)}
+         "parsimony:fitch_up_pass", "parsimony:_retrieve_state_sets_from_attr", "parsimony:_NodeStateSetMap.__getitem__",
+         "charstatemodel:StateIdentity._get_fundamental_states", "charstatemodel:StateIdentity._get_fundamental_indexes_with_gaps_as_missing",
+         "charstatemodel:StateAlphabet.new_multistate", "nexusreader:NexusReader._get_state_for_multistate_tokens"]
+MIN_EVENTS = {
+    # (quick, thorough): about 40-45 % of what clean runs observe
+    "score-compared-with-oracle": (11000, 22000), "repeat-call-compared": (8000, 17000), "bruteforce-crosscheck": (12000, 25000),
+    "rerooted-compared": (1300, 2800), "per-character-list-compared": (11000, 22000), "per-character-list-compared-on-used-object": (6000, 13000),
+    # option defaults / ways of writing the call / entry points
+    "default-gap-treatment-decisive": (800, 2000), "default-gap-treatment-in-state-set-map": (250, 650),
+    "options-passed-positionally": (5500, 11000), "entry-point-calculate.treescore": (4500, 9000),
+    # weight vectors
+    "non-integer-weight-decides": (2200, 4800), "weights-beyond-32-bit-decide": (700, 1500), "weights-as-tuple": (3000, 5800),
+    # matrix types and symbol sets
+    "kind:dna": (700, 1300), "kind:rna": (330, 650), "kind:protein": (350, 650), "kind:standard": (330, 650), "kind:nucleotide": (700, 1300),
+    "kind:restriction": (330, 650), "kind:infinite": (350, 620), "kind:custom": (1700, 3100), "kind:dna-nexus": (400, 800),
+    "kind:standard-nexus": (420, 800), "kind:binary+gap+missing": (170, 340), "kind:binary+missing": (100, 170),
+    "kind:binary+gap-without-missing": (100, 160), "matrix-over-alphabet-with-nested-multistates": (750, 1400),
+    "matrix-with-rows-for-taxa-not-on-the-tree": (1800, 3300), "matrix-with-zero-columns": (500, 750), "single-leaf-tree-scored": (700, 1100),
+    # the direct route
+    "direct-pass-compared": (2800, 5800), "direct-pass-with-new-attribute-name-on-scored-tree": (1100, 2600),
+    "direct-pass-through-legacy-keyword": (800, 1600),
+    # histories
+    "scored-after:score": (3000, 6500), "scored-after:up-pass": (420, 900), "scored-after:matrix-edited-in-place": (400, 850),
+    "scored-after:reroot_at_node": (120, 230), "scored-after:reroot_at_edge": (115, 250), "scored-after:reseed_at": (100, 220),
+    "scored-after:shuffle-children": (120, 250), "scored-after:prune-leaf": (115, 250), "tree-object-changed-in-place": (1000, 2200),
+    "scored-after:failed-call(short-weights)": (100, 210), "scored-after:failed-call(foreign-namespace)": (100, 220),
+    "scored-after:failed-call(non-empty-list)": (100, 220), "scored-after:failed-call(map-without-some-leaf)": (100, 230),
+    "scored-after:failed-call(short-map-rows)": (100, 230), "failing-call-raised": (550, 1300),
+    "scored-after:direct-pass(default)": (60, 100), "scored-after:direct-pass(default)-on-stored-sets": (80, 170),
+    "scored-after:direct-pass(fresh-name)": (850, 1700), "scored-after:direct-pass(none)": (580, 1100),
+    "history-continues-on-copy": (1200, 2800), "scored-after:copy:Tree(tree)": (160, 400), "scored-after:copy:clone(0)": (160, 400),
+    "scored-after:copy:clone(1)": (160, 400), "scored-after:copy:copy.copy": (160, 400), "scored-after:copy:extract_tree": (150, 390),
+    "scored-after:copy:TreeList-copy": (160, 400), "scored-after:copy:deepcopy-with-matrix": (160, 400),
+    "up-pass-between-calls": (700, 1600),
+}
 CASE_TIMEOUT = 600
 ASSUMPTIONS = ["Sankoff oracle with unit costs equals the Fitch count on bifurcating trees (cross-checked by brute force on small cases)",
-               "symbol tables for DNA/RNA/protein/standard are written in the oracle"]
+               "symbol tables for DNA/RNA/nucleotide/protein/standard/binary are written in the oracle; tables of generated alphabets are the "
+               "unions of the declared members",
+               "the structure of a tree object changed in place is read back from its raw child lists (bridge.extract)"]
 
-DNA = {"A": "A", "C": "C", "G": "G", "T": "T", "R": "AG", "Y": "CT", "M": "AC", "K": "GT", "S": "CG", "W": "AT",
-       "H": "ACT", "B": "CGT", "V": "ACG", "D": "AGT", "N": "ACGT", "X": "ACGT"}
-RNA = dict((k.replace("T", "U"), v.replace("T", "U")) for k, v in DNA.items())
-AA = "ACDEFGHIKLMNPQRSTVWY"
-PROT = dict((a, a) for a in AA)
-PROT.update({"B": "DN", "Z": "EQ", "X": AA})
-STD = dict((d, d) for d in "0123456789")
-TYPES = {"dna": (DNA, "ACGT", "DnaCharacterMatrix"), "rna": (RNA, "ACGU", "RnaCharacterMatrix"),
-         "protein": (PROT, AA, "ProteinCharacterMatrix"), "standard": (STD, "0123456789", "StandardCharacterMatrix")}
-GAP = "<gap>"
+GAP = lib.GAP
+_SILENCED = [False]
 
 
-def state_set(sym, table, fundamentals, gaps_as_missing):
-    sym = sym.upper()
-    if sym == "-":
-        return frozenset(fundamentals) if gaps_as_missing else frozenset([GAP])
-    if sym == "?":
-        return frozenset(fundamentals) if gaps_as_missing else frozenset(list(fundamentals) + [GAP])
-    return frozenset(table[sym])
-
-
-def sankoff(spec, leafsets):
-    """min number of changes for one character; leafsets: taxon label -> frozenset of states."""
-    states = sorted(set().union(*leafsets.values()), key=str)
-    INF = float("inf")
-    memo = {}
-    for n in ref.postorder(spec):
-        if not n[3]:
-            ss = leafsets[n[0]]
-            memo[id(n)] = [0 if s in ss else INF for s in states]
-        else:
-            cost = []
-            for i, s in enumerate(states):
-                tot = 0
-                for c in n[3]:
-                    cc = memo[id(c)]
-                    tot += min(cc[j] + (0 if j == i else 1) for j in range(len(states)))
-                cost.append(tot)
-            memo[id(n)] = cost
-    return min(memo[id(spec)])
-
-
-def brute(spec, leafsets):
-    states = sorted(set().union(*leafsets.values()), key=str)
-    nodes = list(ref.preorder(spec))
-    pm = ref.parent_map(spec)
-    choices = []
-    for n in nodes:
-        if n[3]:
-            choices.append(states)
-        else:
-            choices.append(sorted(leafsets[n[0]], key=str))
-    best = None
-    idx = dict((id(n), i) for i, n in enumerate(nodes))
-    for assign in itertools.product(*choices):
-        ch = 0
-        for i, n in enumerate(nodes):
-            p = pm[id(n)]
-            if p is not None and assign[idx[id(p)]] != assign[i]:
-                ch += 1
-        if best is None or ch < best:
-            best = ch
-    return best
-
-
-def oracle_scores(spec, rows, dtype, gaps_as_missing, ctx=None, crosscheck=False):
-    table, fund, _ = TYPES[dtype]
-    ncol = len(next(iter(rows.values())))
-    out = []
-    for c in range(ncol):
-        ls = dict((lbl, state_set(seq[c], table, fund, gaps_as_missing)) for lbl, seq in rows.items())
-        v = sankoff(spec, ls)
-        if crosscheck and len(ls) <= 5 and len(set().union(*ls.values())) <= 4:
-            b = brute(spec, ls)
-            ctx.ev("bruteforce-crosscheck")
-            if b != v:
-                raise core.HarnessBug("Sankoff oracle %r != brute force %r" % (v, b))
-        out.append(v)
-    return out
+def _silence_deprecations():
+    if not _SILENCED[0]:
+        from dendropy.utility import deprecate
+        deprecate.configure_deprecation_warning_behavior("ignore")
+        _SILENCED[0] = True
 
 
 def random_binary(rng, n, rooted):
+    if n == 1:
+        return ref.S(gen.tname(0))
     spec = gen.random_spec(rng, n, p_poly=0.0, shape=rng.choice([None, None, "caterpillar", "balanced"]))
     if not rooted and n >= 3 and rng.random() < 0.7:
         # unrooted drawing: basal trifurcation
@@ -127,34 +116,19 @@ def random_binary(rng, n, rooted):
     return spec
 
 
-def make_matrix(rng, dtype, labels, ncol, ns, style):
-    import dendropy
-    table, fund, clsname = TYPES[dtype]
-    symbols = list(table.keys())
-    rows = {}
-    base = [rng.choice(fund) for _ in range(ncol)]
-    for lbl in labels:
-        seq = []
-        for c in range(ncol):
-            r = rng.random()
-            if style == "clean":
-                s = base[c] if r < 0.6 else rng.choice(fund)
-            elif style == "ambiguous":
-                s = base[c] if r < 0.4 else (rng.choice(symbols) if r < 0.85 else rng.choice("-?"))
-            else:
-                s = rng.choice(symbols + ["-", "?"])
-            if rng.random() < 0.1 and s != "X":
-                s = s.lower()     # (lower-case 'x' is not a registered synonym in the library: excluded)
-            seq.append(s)
-        rows[lbl] = "".join(seq)
-    cls = getattr(dendropy, clsname)
-    m = cls.from_dict(rows, taxon_namespace=ns)
-    return m, rows
+def is_fitch_shape(spec):
+    """every internal node has two children; the root may have three (unrooted drawing)."""
+    for nd in ref.preorder(spec):
+        k = len(nd[3])
+        if k in (0, 2) or (nd is spec and k == 3):
+            continue
+        return False
+    return all(nd[0] is not None for nd in ref.preorder(spec) if not nd[3]) and all(nd[0] is None for nd in ref.preorder(spec) if nd[3])
 
 
 def cases(tier, seed):
     yield {"kind": "directed-purity", "seed": seed}
-    n = 5000 if tier == "quick" else 30000
+    n = 9000 if tier == "quick" else 15000
     for i in range(n):
         yield {"kind": "random", "i": i, "seed": seed}
 
@@ -172,149 +146,788 @@ class Journal(object):
         return list(self.calls.get(id(tree), []))
 
 
+def _jsonable(x):
+    if isinstance(x, fractions.Fraction):
+        return str(x)
+    if isinstance(x, (list, tuple)):
+        return [_jsonable(y) for y in x]
+    return x
+
+
+WEIGHT_CLASSES = ["none", "none", "none", "ints", "ints", "dyadic", "dyadic", "bigint", "fraction"]
+
+
+def make_weights(rng, wclass, ncol):
+    if wclass == "none":
+        return None
+    if wclass == "ints":
+        w = [rng.choice([0, 1, 1, 2, 5]) for _ in range(ncol)]
+    elif wclass == "dyadic":
+        w = [rng.choice([0.0, 0.25, 0.5, 0.5, 1.5, 2.75]) for _ in range(ncol)]
+    elif wclass == "bigint":
+        w = [rng.choice([0, 2 ** 31 + 1, 2 ** 31 + rng.randrange(7), 2 ** 40]) for _ in range(ncol)]
+    else:
+        w = [fractions.Fraction(rng.randrange(0, 8), rng.choice([1, 2, 3, 7])) for _ in range(ncol)]
+    return tuple(w) if rng.random() < 0.4 else w
+
+
+class ScoreCall(object):
+    """one way of writing parsimony_score(tree, chars, gaps_as_missing, weights, score_by_character_list)."""
+
+    def __init__(self, rng, ncol):
+        self.npos = rng.choice([0, 0, 0, 1, 2, 3])
+        self.gam = rng.random() < 0.5
+        self.omit_gam = False
+        if self.npos == 0 and rng.random() < 0.45:
+            self.gam, self.omit_gam = True, True
+        self.wclass = rng.choice(WEIGHT_CLASSES)
+        self.weights = make_weights(rng, self.wclass, ncol)
+        self.want_list = rng.random() < 0.75
+        self.entry = rng.choice(["model.parsimony", "model.parsimony", "calculate.treescore"])
+        self.kw_weights_none = rng.random() < 0.5
+        self.kw_list_none = rng.random() < 0.3
+        self.kw_tree = self.npos == 0 and rng.random() < 0.1
+
+    def route(self):
+        return "gaps_as_missing=%s,positional-options=%d,weights=%s%s,entry=%s" % (
+            "omitted" if self.omit_gam else "given", self.npos, self.wclass,
+            "" if self.weights is None else ("-tuple" if isinstance(self.weights, tuple) else "-list"), self.entry)
+
+    def build(self, tree, m):
+        sbc = [] if self.want_list else None
+        vals = [self.gam, self.weights, sbc]
+        names = ["gaps_as_missing", "weights", "score_by_character_list"]
+        args = [] if self.kw_tree else [tree, m]
+        kw = {"tree": tree, "chars": m} if self.kw_tree else {}
+        args += vals[:self.npos]
+        for i in range(self.npos, 3):
+            if i == 0:
+                if not self.omit_gam:
+                    kw[names[0]] = self.gam
+            elif i == 1:
+                if self.weights is not None or self.kw_weights_none:
+                    kw[names[1]] = self.weights
+            else:
+                if sbc is not None or self.kw_list_none:
+                    kw[names[2]] = sbc
+        return args, kw, sbc
+
+    def describe(self, ncol):
+        return {"gaps_as_missing": "(omitted)" if self.omit_gam else self.gam, "positional_options": self.npos,
+                "weights": _jsonable(self.weights) if ncol <= 30 else "(%s, %d)" % (self.wclass, ncol), "entry": self.entry,
+                "per_character_list": self.want_list}
+
+
+class Mat(object):
+    def __init__(self, m, rows, kind, ncol, order, ns, serial):
+        self.m, self.rows, self.kind, self.ncol, self.order, self.ns, self.serial = m, rows, kind, ncol, order, ns, serial
+        self.version = 0
+
+
+class Obj(object):
+    """a live tree object with what happened to it."""
+    _serial = [0]
+
+    def __init__(self, tree, cur, rooted, ns, used=(), has_default_attr=False):
+        self.tree, self.cur, self.rooted, self.ns = tree, cur, rooted, ns
+        Obj._serial[0] += 1
+        self.serial = Obj._serial[0]
+        self.used = list(used)
+        self.has_default_attr = has_default_attr
+        self.spec_version = 0
+
+
+class History(object):
+    def __init__(self, ctx, rng, journal, case):
+        import dendropy
+        from dendropy.model import parsimony
+        from dendropy.calculate import treescore
+        self.ctx, self.rng, self.journal, self.case = ctx, rng, journal, case
+        self.dendropy = dendropy
+        self.mods = {"model.parsimony": parsimony, "calculate.treescore": treescore}
+        self.parsimony = parsimony
+        self.quick = ctx.tier == "quick"
+        n = rng.choice([1, 2, 2, 3, 3, 4, 4, 5, 5, 6, 6, 8, 8, 12, 12]) if self.quick else rng.choice([1, 2, 2, 3, 3, 4, 4, 5, 5, 6, 6, 9, 9, 15, 15, 30, 30, 60, 60])
+        rooted = rng.choice([True, False, None])
+        spec = random_binary(rng, n, rooted)
+        self.n = n
+        self.row_labels = sorted(ref.leaf_taxa(spec))
+        self.extra = []
+        if rng.random() < 0.3:
+            self.extra = ["X%d" % i for i in range(rng.choice([1, 2, 3]))]
+        nslabels = self._interleave(self.row_labels, self.extra)
+        ns = dendropy.TaxonNamespace(nslabels)
+        self.obj = Obj(bridge.build_tree(spec, ns, rooted), spec, rooted, ns)
+        self.mat = None
+        self.nmat = 0
+        self.attr_counter = 0
+        self.oracle_cache = {}
+        self.last_call = None
+        self.first_oracle = True
+        self.stopped = False
+
+    # ---------------------------------------------------------------- helpers
+    def _interleave(self, labels, extra):
+        rng = self.rng
+        how = rng.choice(["first", "last", "mixed"])
+        if not extra:
+            out = list(labels)
+            if rng.random() < 0.3:
+                rng.shuffle(out)
+            return out
+        if how == "first":
+            return list(extra) + list(labels)
+        if how == "last":
+            return list(labels) + list(extra)
+        out = list(labels) + list(extra)
+        rng.shuffle(out)
+        return out
+
+    def guarded(self, op, fn, args, kw, detail_fn):
+        """core.call with the witness built only when it is needed."""
+        try:
+            return True, fn(*args, **kw)
+        except core.CaseTimeout:
+            raise
+        except Exception as e:
+            self.ctx.unexpected(op, e, detail_fn())
+            return False, e
+
+    def want_chars(self, obj, mat, gam):
+        key = (obj.serial, obj.spec_version, mat.serial, mat.version, gam)
+        v = self.oracle_cache.get(key)
+        if v is None:
+            v = oracle_scores(obj.cur, mat.rows, mat.kind, gam, self.ctx, crosscheck=self.first_oracle)
+            self.first_oracle = False
+            self.oracle_cache[key] = v
+        return v
+
+    def det(self, obj, mat, extra=None):
+        d = {"tree": ref.to_newick(obj.cur), "rooted": obj.rooted, "dtype": mat.kind.name,
+             "rows": dict((k, "".join(v)) for k, v in mat.rows.items()) if mat.ncol <= 30 else "(%d columns)" % mat.ncol,
+             "row_order": mat.order if len(mat.order) <= 20 else None,
+             "operations_on_this_tree_object_so_far": list(obj.used), "earlier_scoring_calls_on_this_tree": self.journal.history(obj.tree)[-6:]}
+        if getattr(mat.kind, "note", None):
+            d["alphabet"] = mat.kind.note
+        if mat.kind.name == "custom":
+            d["alphabet"] = dict((k, sorted(v)) for k, v in mat.kind.table.items())
+        if extra:
+            d.update(extra)
+        return d
+
+    def new_matrix(self, ns=None):
+        rng = self.rng
+        ns = ns if ns is not None else self.obj.ns
+        self.nmat += 1
+        kind = lib.draw_kind(rng, self.nmat)
+        ncol = rng.choice([0, 1, 1, 2, 2, 5, 5, 12, 12, 30, 30]) if self.quick else rng.choice([0, 1, 1, 3, 3, 10, 10, 40, 40, 150, 150, 500, 500])
+        if ncol * self.n > 6000:
+            ncol = max(1, 6000 // self.n)      # keeps the (pure Python) Sankoff oracle within seconds per case
+        if ncol == 0 and kind.name.endswith("-nexus"):
+            ncol = 1
+        style = rng.choice(["clean", "ambiguous", "ambiguous", "wild", "wild", "constant"])
+        labels = self.row_labels + self.extra
+        rows = lib.make_rows(rng, kind, labels, ncol, style)
+        order = self._interleave(self.row_labels, self.extra)
+        ok, m = core.call(self.ctx, "build-matrix[%s]" % kind.name, lib.build_matrix, rng, kind, rows, order, ns,
+                          detail={"dtype": kind.name, "rows": dict((k, "".join(v)) for k, v in rows.items()) if ncol <= 30 else None})
+        if not ok:
+            self.stopped = True
+            return None
+        self.ctx.ev("kind:%s" % kind.name)
+        if getattr(kind, "nested", 0):
+            self.ctx.ev("matrix-over-alphabet-with-nested-multistates")
+        if self.extra:
+            self.ctx.ev("matrix-with-rows-for-taxa-not-on-the-tree")
+        if ncol == 0:
+            self.ctx.ev("matrix-with-zero-columns")
+        return Mat(m, rows, kind, ncol, order, ns, self.nmat)
+
+    def has_gap_cell(self, obj, mat):
+        g = mat.kind.gap
+        if g is None:
+            return False
+        leaves = ref.leaf_taxa(obj.cur)
+        return any(g in mat.rows[l] for l in leaves)
+
+    # ---------------------------------------------------------------- parsimony_score, judged
+    def score(self, obj, mat, call):
+        """call parsimony_score as `call` says and judge value, per-character list and their sum.  Returns the value or None."""
+        ctx = self.ctx
+        args, kw, sbc = call.build(obj.tree, mat.m)
+        fn = self.mods[call.entry].parsimony_score
+        want_chars = self.want_chars(obj, mat, call.gam)
+        w = call.weights if call.weights is not None else [1] * mat.ncol
+        want_list = [a * b for a, b in zip(want_chars, w)]
+        want = sum(want_list)
+        used_before = list(obj.used)
+        ok, got = self.guarded("parsimony_score", fn, args, kw,
+                               lambda: self.det(obj, mat, {"call": call.describe(mat.ncol), "operations_before": used_before}))
+        obj.used.append("score")
+        obj.has_default_attr = True
+        if not ok:
+            ctx.ev("judged-call-raised")
+            return None
+        ctx.ev("score-compared-with-oracle")
+        if used_before:
+            ctx.ev("repeat-call-compared")
+            ctx.ev("scored-after:%s" % used_before[-1])
+        if call.entry != "model.parsimony":
+            ctx.ev("entry-point-calculate.treescore")
+        if call.npos:
+            ctx.ev("options-passed-positionally")
+        if call.wclass in ("dyadic", "fraction") and any(a and b != int(b) for a, b in zip(want_chars, w)):
+            ctx.ev("non-integer-weight-decides")
+        if call.wclass == "bigint" and want > 2 ** 31:
+            ctx.ev("weights-beyond-32-bit-decide")
+        if isinstance(call.weights, tuple):
+            ctx.ev("weights-as-tuple")
+        if call.omit_gam and self.has_gap_cell(obj, mat):
+            other = self.want_chars(obj, mat, False)
+            if sum(a * b for a, b in zip(other, w)) != want:
+                ctx.ev("default-gap-treatment-decisive")
+        if self.n == 1:
+            ctx.ev("single-leaf-tree-scored")
+        if got != want:
+            key, why = self.diagnose_score(obj, mat, call, want, want_chars, used_before)
+            ctx.violation(key, "score %r, minimum number of weighted changes %r%s" % (got, want, why),
+                          self.det(obj, mat, {"call": call.describe(mat.ncol)}))
+            return got
+        if sbc is not None:
+            ctx.ev("per-character-list-compared")
+            if used_before:
+                ctx.ev("per-character-list-compared-on-used-object")
+            if len(sbc) != mat.ncol or any(x != y for x, y in zip(sbc, want_list)):
+                k = "parsimony_score|per-character-list-wrong"
+                if used_before:
+                    # the history, or the list as such?  (the same call on a fresh copy of the tree)
+                    a2, k2, sbc2 = call.build(bridge.build_tree(obj.cur, mat.ns, obj.rooted), mat.m)
+                    try:
+                        self.mods[call.entry].parsimony_score(*a2, **k2)
+                    except Exception:
+                        sbc2 = None
+                    if sbc2 is not None and len(sbc2) == mat.ncol and all(x == y for x, y in zip(sbc2, want_list)):
+                        k += "|not-pure|after-%s" % used_before[-1]
+                ctx.violation(k, "per-character %s, oracle %s" % (_jsonable(sbc[:40]), _jsonable(want_list[:40])),
+                              self.det(obj, mat, {"call": call.describe(mat.ncol)}))
+            elif sum(sbc) != got:
+                ctx.violation("parsimony_score|per-character-list-does-not-sum-to-total", "%r vs %r" % (sum(sbc), got),
+                              self.det(obj, mat, {"call": call.describe(mat.ncol)}))
+        if want > 0:
+            ctx.nontrivial((ref.canon(obj.cur, lengths=False), mat.kind.name, tuple(sorted((k, tuple(v)) for k, v in mat.rows.items())),
+                            call.gam, call.wclass, tuple(used_before)))
+        return got
+
+    def diagnose_score(self, obj, mat, call, want, want_chars, used_before):
+        """which clause failed?  (extra calls on FRESH trees; only names the key of an established violation)"""
+        P = self.parsimony
+
+        def fresh():
+            return bridge.build_tree(obj.cur, mat.ns, obj.rooted)
+
+        def quiet(fn, *a, **k):
+            try:
+                return fn(*a, **k)
+            except Exception as e:
+                return "raised %s" % type(e).__name__
+        if used_before:
+            a, k, _ = call.build(fresh(), mat.m)
+            same_route_on_fresh = quiet(self.mods[call.entry].parsimony_score, *a, **k)
+            if same_route_on_fresh == want:
+                return ("parsimony_score|not-pure|after-%s" % used_before[-1],
+                        " after %s on the same tree object; a fresh copy of the tree scores %r (= oracle)" % (used_before, same_route_on_fresh))
+        kw = {"gaps_as_missing": call.gam}
+        if call.weights is not None:
+            kw["weights"] = list(call.weights)
+        canonical = quiet(P.parsimony_score, fresh(), mat.m, **kw)
+        if canonical == want:
+            if call.omit_gam:
+                c2 = copy.copy(call)
+                c2.omit_gam = False      # the same call with gaps_as_missing=True written out
+                a, k, _ = c2.build(fresh(), mat.m)
+                explicit = quiet(self.mods[call.entry].parsimony_score, *a, **k)
+                if explicit == want:
+                    return ("parsimony_score|default-of-gaps_as_missing-is-not-True",
+                            "; gaps_as_missing omitted (documented default True); with gaps_as_missing=True given the score is %r" % (explicit,))
+            return ("parsimony_score|depends-on-how-the-call-is-written|options-%s,entry=%s" % ("positional" if call.npos else "by-keyword", call.entry),
+                    "; parsimony_score(tree, chars, gaps_as_missing=.., weights=[..]) on a fresh tree gives %r; the call was written as %s" % (canonical, call.route()))
+        if call.weights is not None:
+            unweighted = quiet(P.parsimony_score, fresh(), mat.m, gaps_as_missing=call.gam)
+            if unweighted == sum(want_chars):
+                return ("parsimony_score|weights-not-applied-as-given|%s" % call.wclass, "; the unweighted score %r is right" % (unweighted,))
+        why = lib.library_state_sets_differ(mat.kind, mat.m, mat.rows, call.gam, set(ref.leaf_taxa(obj.cur)))
+        if why:
+            return ("parsimony_score|state-set-of-a-symbol-wrong|%s" % mat.kind.name, "; state set of cell %s" % why)
+        return "parsimony_score|not-minimal|%s" % mat.kind.name, ""
+
+    # ---------------------------------------------------------------- operations
+    def op_score_new(self):
+        mat = self.new_matrix()
+        if mat is None:
+            return
+        self.mat = mat
+        call = ScoreCall(self.rng, mat.ncol)
+        self.last_call = call
+        self.score(self.obj, mat, call)
+
+    def op_score_same_matrix(self):
+        """the SAME tree and the SAME matrix object, other options: the score follows the arguments of this call."""
+        mat = self.mat
+        call = ScoreCall(self.rng, mat.ncol)
+        self.last_call = call
+        self.score(self.obj, mat, call)
+
+    def op_repeat(self):
+        got1 = self.score(self.obj, self.mat, self.last_call)
+        return got1
+
+    def op_edit_cell(self):
+        mat, rng = self.mat, self.rng
+        if mat.ncol == 0:
+            return
+        victim = rng.choice(mat.order)
+        col = rng.randrange(mat.ncol)
+        tok = rng.choice(list(mat.kind.table.keys()) + [t for t in (mat.kind.gap, mat.kind.missing) if t is not None])
+        if tok.startswith("{") or tok.startswith("("):
+            tok = rng.choice(mat.kind.plain_tokens())
+        try:
+            seq = mat.m[mat.ns.get_taxon(victim)]
+            seq[col] = lib.library_state(mat.kind, mat.m, tok)
+        except Exception as e:
+            self.ctx.note("matrix-cell-edit-raised:%s" % type(e).__name__)
+            self.stopped = True      # the matrix may be half-edited: nothing more can be judged with it
+            return
+        rows = dict(mat.rows)
+        rows[victim] = mat.rows[victim][:col] + [tok] + mat.rows[victim][col + 1:]
+        mat.rows = rows
+        mat.version += 1
+        self.obj.used.append("matrix-edited-in-place")
+        self.ctx.ev("matrix-edited-in-place")
+
+    def _tssm(self, mat, gam, mode):
+        if mode == "omitted":
+            return mat.m.taxon_state_sets_map()
+        if mode == "positional":
+            return mat.m.taxon_state_sets_map(None, gam)
+        return mat.m.taxon_state_sets_map(gaps_as_missing=gam)
+
+    def op_direct_pass(self):
+        """taxon_state_sets_map + fitch_down_pass called by hand, twice with one caller-owned map."""
+        ctx, rng, obj, mat = self.ctx, self.rng, self.obj, self.mat
+        tssm_mode = rng.choice(["omitted", "keyword", "keyword", "positional"])
+        gam = True if tssm_mode == "omitted" else (rng.random() < 0.5)
+        wclass = rng.choice(WEIGHT_CLASSES)
+        weights = make_weights(rng, wclass, mat.ncol)
+        entry = rng.choice(["model.parsimony", "model.parsimony", "calculate.treescore"])
+        attr_mode = rng.choice(["none", "none", "fresh-name", "fresh-name", "default", "default-explicit"])
+        judged = True
+        if attr_mode.startswith("default") and obj.has_default_attr:
+            if rng.random() < 0.6:
+                attr_mode = "fresh-name"
+            else:
+                judged = False       # documented: state sets stored on the nodes are re-used - nothing to demand
+        node_mode = rng.choice(["positional-iter", "positional-iter", "positional-list", "keyword-iter", "keyword-list", "legacy-iter", "legacy-list"])
+        npos = rng.choice([0, 0, 1, 2, 3, 4]) if node_mode.startswith("positional") else 0
+        want_list = rng.random() < 0.5
+        want_chars = self.want_chars(obj, mat, gam)
+        w = weights if weights is not None else [1] * mat.ncol
+        wl = [a * b for a, b in zip(want_chars, w)]
+        want = sum(wl)
+        route = "nodes=%s,attr=%s,map-gaps_as_missing=%s,positional-options=%d,weights=%s,entry=%s" % (node_mode, attr_mode, tssm_mode, npos, wclass, entry)
+        ok, tssm = self.guarded("taxon_state_sets_map", self._tssm, (mat, gam, tssm_mode), {}, lambda: self.det(obj, mat, {"direct_pass": route}))
+        if not ok:
+            return
+        if mat.ncol:
+            before = dict((t.label, [frozenset(x) for x in v]) for t, v in tssm.items())
+        used_before = list(obj.used)
+
+        def one_call(tree, the_map, attr):
+            sbc = [] if want_list else None
+            nodes = tree.postorder_node_iter()
+            if node_mode.endswith("list"):
+                nodes = list(nodes)
+            vals = [attr, the_map, weights, sbc]
+            names = ["state_sets_attr_name", "taxon_state_sets_map", "weights", "score_by_character_list"]
+            kw = {}
+            if node_mode.startswith("positional"):
+                args = [nodes] + vals[:npos]
+            elif node_mode.startswith("keyword"):
+                args = []
+                kw["postorder_node_iter"] = nodes
+            else:
+                args = [None]
+                kw["postorder_nodes"] = nodes
+            for i in range(npos, 4):
+                if i == 0 and attr_mode == "default":
+                    continue
+                if i == 2 and weights is None:
+                    continue
+                if i == 3 and sbc is None:
+                    continue
+                kw[names[i]] = vals[i]
+            fn = self.mods[entry].fitch_down_pass
+            with warnings.catch_warnings():
+                warnings.simplefilter("ignore")
+                return fn(*args, **kw), sbc
+
+        def next_attr():
+            if attr_mode == "none":
+                return None
+            if attr_mode.startswith("default"):
+                return "state_sets"
+            self.attr_counter += 1
+            return "c16_states_%d" % self.attr_counter
+        op = "fitch_down_pass[legacy-keyword-postorder_nodes]" if node_mode.startswith("legacy") else "fitch_down_pass"
+        vals = []
+        reps = 2 if (judged and attr_mode in ("none", "fresh-name")) else 1
+        if not judged:
+            # documented re-use of the state sets stored on the nodes (possibly of another matrix, another number of columns):
+            # neither the value nor an exception means anything here; the NEXT parsimony_score has to be right
+            try:
+                one_call(obj.tree, tssm, next_attr())
+                ctx.ev("direct-pass-on-stored-state-sets-not-judged")
+            except core.CaseTimeout:
+                raise
+            except Exception as e:
+                ctx.ev("direct-pass-on-stored-state-sets-not-judged")
+                ctx.note("direct-pass-on-stored-state-sets-raised:%s" % type(e).__name__)
+            obj.used.append("direct-pass(%s)-on-stored-sets" % attr_mode)
+            return
+        for rep in range(reps):
+            ok, res = self.guarded(op, one_call, (obj.tree, tssm, next_attr()), {}, lambda: self.det(obj, mat, {"direct_pass": route}))
+            if not ok:
+                ctx.ev("judged-call-raised")
+                obj.used.append("direct-pass(%s)" % attr_mode)
+                return
+            vals.append(res)
+        obj.used.append("direct-pass(%s)" % attr_mode)
+        if attr_mode.startswith("default"):
+            obj.has_default_attr = True
+        ctx.ev("direct-pass-compared")
+        if node_mode.startswith("legacy"):
+            ctx.ev("direct-pass-through-legacy-keyword")
+        if entry != "model.parsimony":
+            ctx.ev("entry-point-calculate.treescore")
+        if attr_mode == "fresh-name" and "score" in used_before:
+            ctx.ev("direct-pass-with-new-attribute-name-on-scored-tree")
+        if tssm_mode == "omitted" and self.has_gap_cell(obj, mat):
+            ctx.ev("default-gap-treatment-in-state-set-map")
+        changed = bool(mat.ncol) and dict((t.label, [frozenset(x) for x in v]) for t, v in tssm.items()) != before
+        if changed:
+            ctx.note("fitch_down_pass-changed-the-callers-state-set-map")
+        for rep, (got, sbc) in enumerate(vals):
+            if got != want:
+                key, why = self.diagnose_direct(obj, mat, one_call, gam, tssm_mode, weights, wclass, want, attr_mode, node_mode.split('-')[0], used_before, rep, changed, route)
+                ctx.violation(key, "direct down pass no. %d gave %r, minimum number of weighted changes %r%s" % (rep + 1, got, want, why),
+                              self.det(obj, mat, {"direct_pass": route, "weights": _jsonable(weights) if mat.ncol <= 30 else wclass}))
+                return
+            if sbc is not None:
+                ctx.ev("per-character-list-compared")
+                if len(sbc) != mat.ncol or any(x != y for x, y in zip(sbc, wl)):
+                    ctx.violation("fitch_down_pass|per-character-list-wrong", "per-character %s, oracle %s" % (_jsonable(sbc[:40]), _jsonable(wl[:40])),
+                                  self.det(obj, mat, {"direct_pass": route}))
+                    return
+                if sum(sbc) != got:
+                    ctx.violation("fitch_down_pass|per-character-list-does-not-sum-to-total", "%r vs %r" % (sum(sbc), got),
+                                  self.det(obj, mat, {"direct_pass": route}))
+                    return
+
+    def diagnose_direct(self, obj, mat, one_call, gam, tssm_mode, weights, wclass, want, attr_mode, node_class, used_before, rep, changed, route):
+        def quiet(fn, *a, **k):
+            try:
+                return fn(*a, **k)
+            except Exception as e:
+                return "raised %s" % type(e).__name__
+        if rep == 1:
+            if changed:
+                return "fitch_down_pass|callers-state-set-map-consumed-by-the-first-pass", "; the first pass with the same map was right"
+            return "fitch_down_pass|not-pure|repeat-call-differs", "; the first pass with the same map was right"
+        fresh = bridge.build_tree(obj.cur, mat.ns, obj.rooted)
+        attr = None if attr_mode == "none" else ("state_sets" if attr_mode.startswith("default") else "c16_states_fresh")
+        r = quiet(lambda: one_call(fresh, self._tssm(mat, gam, tssm_mode), attr)[0])
+        if r == want and used_before:
+            return ("fitch_down_pass|not-pure|attr=%s|after-%s" % (attr_mode, used_before[-1]),
+                    " after %s on the same tree object; the same pass on a fresh copy gives %r" % (used_before, r))
+        kw = {"gaps_as_missing": gam}
+        if weights is not None:
+            kw["weights"] = list(weights)
+        canonical = quiet(self.parsimony.parsimony_score, bridge.build_tree(obj.cur, mat.ns, obj.rooted), mat.m, **kw)
+        if canonical == want:
+            if tssm_mode == "omitted":
+                r2 = quiet(lambda: one_call(bridge.build_tree(obj.cur, mat.ns, obj.rooted), self._tssm(mat, True, "keyword"), attr)[0])
+                if r2 == want:
+                    return "taxon_state_sets_map|default-of-gaps_as_missing-is-not-True", "; with gaps_as_missing=True given the pass yields %r" % (r2,)
+            return ("fitch_down_pass|differs-from-parsimony_score|attr=%s,nodes=%s" % (attr_mode, node_class),
+                    "; parsimony_score on a fresh tree gives %r; the pass was written as %s" % (canonical, route))
+        if weights is not None:
+            unweighted = quiet(self.parsimony.parsimony_score, bridge.build_tree(obj.cur, mat.ns, obj.rooted), mat.m, gaps_as_missing=gam)
+            if unweighted == sum(self.want_chars(obj, mat, gam)):
+                return "fitch_down_pass|weights-not-applied-as-given|%s" % wclass, "; the unweighted score %r is right" % (unweighted,)
+        why = lib.library_state_sets_differ(mat.kind, mat.m, mat.rows, gam, set(ref.leaf_taxa(obj.cur)))
+        if why:
+            return "taxon_state_sets_map|state-set-of-a-symbol-wrong|%s" % mat.kind.name, "; state set of cell %s" % why
+        return "fitch_down_pass|not-minimal|%s" % mat.kind.name, ""
+
+    def op_up_pass(self):
+        """fitch_up_pass between scoring calls: nothing is demanded of it (the statement is about scores); it rewrites the stored sets."""
+        obj, rng = self.obj, self.rng
+        if not obj.has_default_attr:
+            return
+        legacy = rng.random() < 0.3
+        try:
+            with warnings.catch_warnings():
+                warnings.simplefilter("ignore")
+                fn = self.mods[rng.choice(["model.parsimony", "calculate.treescore"])].fitch_up_pass
+                if legacy:
+                    fn(None, preorder_nodes=obj.tree.preorder_node_iter())
+                else:
+                    fn(obj.tree.preorder_node_iter())
+            self.ctx.ev("up-pass-between-calls")
+        except core.CaseTimeout:
+            raise
+        except Exception as e:
+            self.ctx.note("fitch_up_pass-raised:%s" % type(e).__name__)
+        obj.used.append("up-pass")
+
+    def op_failing_call(self):
+        """calls that are wrong on purpose and stop half-way; whatever they do, the NEXT scoring call has to be right."""
+        ctx, rng, obj, mat = self.ctx, self.rng, self.obj, self.mat
+        dendropy, P = self.dendropy, self.parsimony
+        which = rng.choice(["short-weights", "foreign-namespace", "non-empty-list", "map-without-some-leaf", "short-map-rows"])
+        try:
+            if which == "short-weights":
+                if mat.ncol == 0:
+                    return
+                P.parsimony_score(obj.tree, mat.m, weights=[1] * rng.randrange(mat.ncol))
+            elif which == "foreign-namespace":
+                other = dendropy.DnaCharacterMatrix.from_dict(dict((l, "ACGT") for l in self.row_labels))
+                P.parsimony_score(obj.tree, other)
+            elif which == "non-empty-list":
+                P.parsimony_score(obj.tree, mat.m, score_by_character_list=[7])
+            elif which == "map-without-some-leaf":
+                leaves = sorted(ref.leaf_taxa(obj.cur))
+                other = dendropy.DnaCharacterMatrix.from_dict(dict((l, "ACGTTGCA") for l in leaves[:max(1, len(leaves) // 2)]), taxon_namespace=mat.ns)
+                P.fitch_down_pass(obj.tree.postorder_node_iter(), taxon_state_sets_map=other.taxon_state_sets_map())
+                obj.has_default_attr = True
+            else:
+                other = dendropy.StandardCharacterMatrix.from_dict(dict((l, "01"[i % 2] * (1 + i % 3)) for i, l in enumerate(self.row_labels + self.extra)),
+                                                                   taxon_namespace=mat.ns)
+                P.parsimony_score(obj.tree, other, weights=[1])
+            ctx.ev("failing-call:returned:%s" % which)
+        except core.CaseTimeout:
+            raise
+        except Exception as e:
+            ctx.ev("failing-call:raised:%s" % which)
+            ctx.ev("failing-call-raised")
+        obj.has_default_attr = True
+        obj.used.append("failed-call(%s)" % which)
+
+    def _after_structure_change(self, what):
+        obj = self.obj
+        try:
+            cur = bridge.extract(obj.tree)
+        except bridge.ExtractError as e:
+            self.ctx.note("structure-unreadable-after-%s" % what)
+            self.stopped = True
+            return False
+        if not is_fitch_shape(cur) or not set(ref.leaf_taxa(cur)) <= set(self.row_labels):
+            self.ctx.note("history-stopped:not-a-bifurcating-tree-after-%s" % what)
+            self.stopped = True
+            return False
+        obj.cur = cur
+        obj.spec_version += 1
+        obj.used.append(what)
+        self.ctx.ev("tree-object-changed-in-place")
+        return True
+
+    def op_restructure(self):
+        """the SCORED object (nodes carry state sets) is re-rooted / re-seeded / shuffled / pruned through the library."""
+        obj, rng = self.obj, self.rng
+        tree = obj.tree
+        nleaves = len(ref.leaf_taxa(obj.cur))
+        if nleaves < 3:
+            return
+        what = rng.choice(["reroot_at_node", "reroot_at_edge", "reseed_at", "shuffle-children", "prune-leaf"])
+        try:
+            internal = [nd for nd in tree.preorder_node_iter() if nd._child_nodes and nd is not tree.seed_node]
+            if what in ("reroot_at_node", "reseed_at"):
+                if not internal:
+                    return
+                nd = rng.choice(internal)
+                if what == "reroot_at_node":
+                    tree.reroot_at_node(nd)
+                else:
+                    tree.reseed_at(nd)
+            elif what == "reroot_at_edge":
+                nodes = [nd for nd in tree.preorder_node_iter() if nd is not tree.seed_node]
+                tree.reroot_at_edge(rng.choice(nodes).edge)
+            elif what == "shuffle-children":
+                for nd in tree.preorder_node_iter():
+                    if nd._child_nodes and rng.random() < 0.6:
+                        ch = list(nd._child_nodes)
+                        rng.shuffle(ch)
+                        nd.set_child_nodes(ch)
+            else:
+                victim = rng.choice(sorted(ref.leaf_taxa(obj.cur)))
+                tree.prune_taxa([obj.ns.get_taxon(victim)])
+        except core.CaseTimeout:
+            raise
+        except Exception as e:
+            self.ctx.note("restructuring-raised:%s:%s" % (what, type(e).__name__))
+            self.stopped = True
+            return
+        self._after_structure_change(what)
+
+    def op_clone(self):
+        """continue the history on a copy of the scored object."""
+        obj, rng, dendropy = self.obj, self.rng, self.dendropy
+        how = rng.choice(["Tree(tree)", "clone(0)", "clone(1)", "copy.copy", "extract_tree", "TreeList-copy", "deepcopy-with-matrix"])
+        try:
+            ns, mat = obj.ns, self.mat
+            if how == "Tree(tree)":
+                t2 = dendropy.Tree(obj.tree)
+            elif how == "clone(0)":
+                t2 = obj.tree.clone(0)
+            elif how == "clone(1)":
+                t2 = obj.tree.clone(1)
+            elif how == "copy.copy":
+                t2 = copy.copy(obj.tree)
+            elif how == "extract_tree":
+                t2 = obj.tree.extract_tree()
+            elif how == "TreeList-copy":
+                t2 = dendropy.TreeList(dendropy.TreeList([obj.tree], taxon_namespace=ns))[0]
+            else:
+                t2, m2 = copy.deepcopy((obj.tree, mat.m))
+                ns = t2.taxon_namespace
+                if m2.taxon_namespace is not ns:
+                    self.ctx.note("deepcopy-of-(tree,matrix)-does-not-share-one-namespace")
+                    return
+                self.nmat += 1
+                mat = Mat(m2, mat.rows, mat.kind, mat.ncol, mat.order, ns, self.nmat)
+        except core.CaseTimeout:
+            raise
+        except Exception as e:
+            self.ctx.note("copy-raised:%s:%s" % (how, type(e).__name__))
+            return
+        try:
+            cur = bridge.extract(t2)
+        except bridge.ExtractError:
+            self.ctx.note("structure-unreadable-after-copy:%s" % how)
+            return
+        if not is_fitch_shape(cur) or ref.canon(cur, lengths=False) != ref.canon(obj.cur, lengths=False):
+            # a copy with another structure is a matter of the copy semantics (other properties); judged on what it IS would
+            # also be sound, but then it is no longer "a copy of the scored tree"
+            self.ctx.note("copy-has-another-structure:%s" % how)
+            if not is_fitch_shape(cur):
+                return
+        new = Obj(t2, cur, obj.rooted, ns, used=obj.used + ["copy:%s" % how], has_default_attr=True)
+        self.obj = new
+        self.mat = mat
+        self.ctx.ev("history-continues-on-copy")
+        # score the copy at once with the matrix the original was scored with
+        call = ScoreCall(self.rng, mat.ncol)
+        self.last_call = call
+        self.score(new, mat, call)
+
+    def op_redraw(self):
+        """root position / child order: a FRESH tree from the shuffled, re-rooted spec, rooting flag drawn independently."""
+        ctx, rng, obj, mat = self.ctx, self.rng, self.obj, self.mat
+        s2 = gen.shuffle_children(obj.cur, rng)
+        internal = [i for i, nd in enumerate(ref.preorder(s2)) if nd[3]]
+        if internal:
+            cand = ref.suppress_unary(ref.reroot(s2, rng.choice(internal)))
+            if is_fitch_shape(cand):
+                s2 = cand
+        rooted2 = rng.choice([True, False, None])
+        t2 = bridge.build_tree(s2, mat.ns, rooted2)
+        call = self.last_call if (self.last_call is not None and rng.random() < 0.5 and
+                                  (self.last_call.weights is None or len(self.last_call.weights) == mat.ncol)) else ScoreCall(rng, mat.ncol)
+        args, kw, sbc = call.build(t2, mat.m)
+        want_chars = self.want_chars(obj, mat, call.gam)     # oracle on the ORIGINAL drawing: the value may not depend on the drawing
+        w = call.weights if call.weights is not None else [1] * mat.ncol
+        want = sum(a * b for a, b in zip(want_chars, w))
+        ok, got = self.guarded("parsimony_score", self.mods[call.entry].parsimony_score, args, kw,
+                               lambda: self.det(obj, mat, {"redrawn": ref.to_newick(s2), "rooting_flag": rooted2, "call": call.describe(mat.ncol)}))
+        ctx.ev("rerooted-compared")
+        if ok and got != want:
+            # is it the drawing (the original drawing scores right on a fresh tree) or the value as such?
+            a0, k0, _ = call.build(bridge.build_tree(obj.cur, mat.ns, obj.rooted), mat.m)
+            try:
+                g0 = self.mods[call.entry].parsimony_score(*a0, **k0)
+            except Exception as e:
+                g0 = "raised %s" % type(e).__name__
+            if g0 == want:
+                ctx.violation("parsimony_score|depends-on-root-or-child-order", "%r for the original drawing, %r after re-drawing (rooting flag %r)" % (g0, got, rooted2),
+                              self.det(obj, mat, {"redrawn": ref.to_newick(s2), "call": call.describe(mat.ncol)}))
+            else:
+                key, why = self.diagnose_score(Obj(t2, s2, rooted2, mat.ns), mat, call, want, want_chars, [])
+                ctx.violation(key, "score %r, minimum number of weighted changes %r%s" % (got, want, why),
+                              self.det(obj, mat, {"redrawn": ref.to_newick(s2), "call": call.describe(mat.ncol)}))
+
+    # ---------------------------------------------------------------- driver
+    def run(self):
+        rng, ctx = self.rng, self.ctx
+        nops = rng.choice([1, 2, 3, 4, 5, 7]) if self.quick else rng.choice([1, 2, 3, 5, 8, 12])
+        ops = [("score-new", 3.0, self.op_score_new), ("score-same", 2.0, self.op_score_same_matrix), ("repeat", 1.5, self.op_repeat),
+               ("direct", 3.0, self.op_direct_pass), ("up-pass", 1.0, self.op_up_pass), ("failing", 1.2, self.op_failing_call),
+               ("edit", 1.0, self.op_edit_cell), ("restructure", 1.6, self.op_restructure), ("clone", 1.6, self.op_clone),
+               ("redraw", 1.6, self.op_redraw)]
+        total = sum(w for _, w, _ in ops)
+        # first operation: a scoring call, or (sometimes) a direct pass with the default attribute name on the untouched object
+        first = self.new_matrix()
+        if first is None:
+            return
+        self.mat = first
+        if rng.random() < 0.2:
+            self.op_direct_pass()
+        else:
+            call = ScoreCall(rng, first.ncol)
+            self.last_call = call
+            self.score(self.obj, first, call)
+        if self.last_call is None:
+            self.last_call = ScoreCall(rng, first.ncol)
+        for k in range(nops):
+            if self.stopped:
+                break
+            r = rng.random() * total
+            for name, wgt, fn in ops:
+                r -= wgt
+                if r < 0:
+                    break
+            if name in ("repeat",) and (self.last_call.weights is not None and len(self.last_call.weights) != self.mat.ncol):
+                name, fn = "score-same", self.op_score_same_matrix
+            ctx.ev("op:%s" % name)
+            fn()
+        # whatever came last, one more plain scoring call closes the history (so that every in-between operation is followed by a judged call)
+        if not self.stopped and self.obj.used and self.obj.used[-1] != "score":
+            call = ScoreCall(rng, self.mat.ncol)
+            self.last_call = call
+            self.score(self.obj, self.mat, call)
+        if self.case["i"] < 3:
+            ctx.sample({"tree": ref.to_newick(self.obj.cur), "operations": self.obj.used, "calls": self.journal.history(self.obj.tree)[-8:],
+                        "last_matrix": dict((k, "".join(v)) for k, v in self.mat.rows.items()) if self.mat.ncol <= 12 else "%d cols" % self.mat.ncol})
+
+
 def run_case(case, ctx):
-    import dendropy
+    import dendropy  # noqa
     from dendropy.model import parsimony
+    from dendropy.calculate import treescore
+    _silence_deprecations()
     rng = random.Random("%s/%s" % (case["seed"], sorted((k, str(v)) for k, v in case.items())))
     journal = Journal()
     with Hooks(ctx) as hooks:
-        def pre(obj, args, kw):
-            return None
-
         def post(snap, obj, args, kw, result, exc):
             tree = args[0] if args else kw.get("tree")
-            journal.add(tree, {"gaps_as_missing": kw.get("gaps_as_missing", True), "weights": kw.get("weights") is not None,
-                               "result": result if exc is None else "raised %s" % type(exc).__name__})
-        hooks.install(parsimony, "parsimony_score", pre=pre, post=post)
+            gam = args[2] if len(args) > 2 else kw.get("gaps_as_missing", "(omitted)")
+            wts = args[3] if len(args) > 3 else kw.get("weights")
+            journal.add(tree, {"gaps_as_missing": gam, "weights": wts is not None,
+                               "result": _jsonable(result) if exc is None else "raised %s" % type(exc).__name__})
+        hooks.install(parsimony, "parsimony_score", post=post)
+        hooks.install(treescore, "parsimony_score", post=post)
         if case["kind"] == "directed-purity":
             directed(ctx, rng, journal)
             return
-        quick = ctx.tier == "quick"
-        n = rng.choice([2, 3, 4, 5, 6, 8, 12]) if quick else rng.choice([2, 3, 4, 5, 6, 9, 15, 30, 60])
-        rooted = rng.random() < 0.5
-        spec = random_binary(rng, n, rooted)
-        labels = sorted(ref.leaf_taxa(spec))
-        ns = dendropy.TaxonNamespace(labels)
-        tree = bridge.build_tree(spec, ns, rooted)
-        ncalls = rng.choice([1, 2, 3, 4])
-        for k in range(ncalls):
-            dtype = rng.choice(["dna", "dna", "protein", "standard", "rna"])
-            ncol = rng.choice([1, 2, 5, 12, 30]) if quick else rng.choice([1, 3, 10, 40, 150, 500])
-            if ncol * n > 6000:
-                ncol = max(1, 6000 // n)      # keeps the (pure Python) Sankoff oracle within seconds per case
-            m, rows = make_matrix(rng, dtype, labels, ncol, ns, rng.choice(["clean", "ambiguous", "wild"]))
-            gam = rng.random() < 0.5
-            weights = [rng.choice([0, 1, 1, 2, 5]) for _ in range(ncol)] if rng.random() < 0.4 else None
-            want_chars = oracle_scores(spec, rows, dtype, gam, ctx, crosscheck=(k == 0))
-            w = weights or [1] * ncol
-            want = sum(a * b for a, b in zip(want_chars, w))
-            det = {"tree": ref.to_newick(spec), "rooted": rooted, "dtype": dtype, "rows": rows if ncol <= 30 else "(%d columns)" % ncol,
-                   "gaps_as_missing": gam, "weights": weights if ncol <= 30 else None, "earlier_calls_on_this_tree": journal.history(tree)}
-            sbc = []
-            ok, got = core.call(ctx, "parsimony_score", parsimony.parsimony_score, tree, m, gaps_as_missing=gam, weights=weights,
-                                score_by_character_list=sbc, detail=det)
-            if not ok:
-                continue
-            ctx.ev("score-compared-with-oracle")
-            hist = len(journal.history(tree)) - 1
-            if got != want:
-                # is it the purity clause (a fresh copy scores right) or the value itself?
-                fresh = bridge.build_tree(spec, ns, rooted)
-                ok2, got2 = core.call(ctx, "parsimony_score", parsimony.parsimony_score, fresh, m, gaps_as_missing=gam, weights=weights)
-                if ok2 and got2 == want and hist > 0:
-                    ctx.violation("parsimony_score|not-pure|depends-on-earlier-calls-on-the-same-tree",
-                                  "score %r after %d earlier call(s); a fresh copy of the tree scores %r (= oracle)" % (got, hist, got2), det)
-                else:
-                    ctx.violation("parsimony_score|not-minimal|%s" % dtype, "score %r, minimum number of weighted changes %r" % (got, want), det)
-                continue
-            if len(sbc) != ncol or any(x != a * b for x, a, b in zip(sbc, want_chars, w)):
-                ctx.violation("parsimony_score|per-character-list-wrong", "per-character %s, oracle %s" % (sbc[:40], [a * b for a, b in zip(want_chars, w)][:40]), det)
-            elif sum(sbc) != got:
-                ctx.violation("parsimony_score|per-character-list-does-not-sum-to-total", "%r vs %r" % (sum(sbc), got), det)
-            if want > 0:
-                ctx.nontrivial((ref.canon(spec, lengths=False), tuple(sorted(rows.items())), gam, tuple(weights or ()), hist))
-            # ---- same object scored again immediately
-            ok, again = core.call(ctx, "parsimony_score", parsimony.parsimony_score, tree, m, gaps_as_missing=gam, weights=weights)
-            ctx.ev("repeat-call-compared")
-            if ok and again != got:
-                ctx.violation("parsimony_score|not-pure|repeat-call-differs", "%r then %r on the same tree and matrix" % (got, again), det)
-            # ---- the down pass called directly, twice, with one caller-owned state-set map (must not be consumed)
-            if rng.random() < 0.5:
-                tssm = m.taxon_state_sets_map(gaps_as_missing=gam)
-                before = dict((t.label, [frozenset(x) for x in v]) for t, v in tssm.items())
-                vals = []
-                for rep in range(2):
-                    ok, v = core.call(ctx, "fitch_down_pass", parsimony.fitch_down_pass, tree.postorder_node_iter(),
-                                      state_sets_attr_name=None, taxon_state_sets_map=tssm, weights=weights)
-                    if ok:
-                        vals.append(v)
-                ctx.ev("repeat-call-compared")
-                after = dict((t.label, [frozenset(x) for x in v]) for t, v in tssm.items())
-                if after != before:
-                    ctx.violation("fitch_down_pass|mutates-the-callers-state-set-map", "taxon_state_sets_map changed by the pass", det)
-                elif len(vals) == 2 and (vals[0] != want or vals[1] != want):
-                    ctx.violation("fitch_down_pass|not-pure|repeat-call-differs", "direct down passes gave %r, oracle %r" % (vals, want), det)
-            # ---- clone of a scored tree
-            if rng.random() < 0.3:
-                clone = dendropy.Tree(tree)
-                ok, cs = core.call(ctx, "parsimony_score", parsimony.parsimony_score, clone, m, gaps_as_missing=gam, weights=weights)
-                ctx.ev("repeat-call-compared")
-                if ok and cs != want:
-                    ctx.violation("parsimony_score|not-pure|clone-of-scored-tree", "clone scores %r, oracle %r" % (cs, want), det)
-            # ---- root position / child order
-            if rng.random() < 0.5:
-                s2 = gen.shuffle_children(spec, rng)
-                if not rooted or True:
-                    # any re-drawing with a bifurcating/trifurcating root is the same unrooted tree; Fitch is root independent
-                    internal = [i for i, nd in enumerate(ref.preorder(s2)) if nd[3]]
-                    cand = ref.reroot(s2, rng.choice(internal))
-                    cand = ref.suppress_unary(cand)
-                    if all(len(nd[3]) in (0, 2) or (nd is cand and len(nd[3]) == 3) for nd in ref.preorder(cand)):
-                        s2 = cand
-                t2 = bridge.build_tree(s2, ns, rooted)
-                ok, v2 = core.call(ctx, "parsimony_score", parsimony.parsimony_score, t2, m, gaps_as_missing=gam, weights=weights)
-                ctx.ev("rerooted-compared")
-                if ok and v2 != got:
-                    ctx.violation("parsimony_score|depends-on-root-or-child-order", "%r vs %r" % (got, v2),
-                                  dict(det, redrawn=ref.to_newick(s2)))
-            # ---- the SAME tree and the SAME matrix object again with the other gap treatment / other weights, and after the
-            # matrix was edited in place: the score must follow the arguments of the call, not what an earlier call saw
-            if rng.random() < 0.6:
-                gam2 = not gam
-                want2_chars = oracle_scores(spec, rows, dtype, gam2)
-                w2 = [rng.choice([0, 1, 3]) for _ in range(ncol)] if rng.random() < 0.5 else None
-                want2 = sum(a * b for a, b in zip(want2_chars, w2 or [1] * ncol))
-                ok, got2 = core.call(ctx, "parsimony_score", parsimony.parsimony_score, tree, m, gaps_as_missing=gam2, weights=w2, detail=det)
-                ctx.ev("repeat-call-compared")
-                if ok and got2 != want2:
-                    ctx.violation("parsimony_score|not-pure|same-matrix-object-other-options",
-                                  "same tree and matrix object scored with gaps_as_missing=%s after gaps_as_missing=%s: %r, minimum is %r" % (gam2, gam, got2, want2),
-                                  dict(det, second_call={"gaps_as_missing": gam2, "weights": w2 if ncol <= 30 else None}))
-                # in-place edit of one cell
-                victim = rng.choice(labels)
-                col = rng.randrange(ncol)
-                table, fund, _ = TYPES[dtype]
-                newsym = rng.choice(fund)
-                seq = m[ns.get_taxon(victim)]
-                try:
-                    seq[col] = m.default_state_alphabet[newsym]
-                except Exception:
-                    seq = None
-                if seq is not None:
-                    rows3 = dict(rows)
-                    rows3[victim] = rows[victim][:col] + newsym + rows[victim][col + 1:]
-                    want3 = sum(oracle_scores(spec, rows3, dtype, gam))
-                    ok, got3 = core.call(ctx, "parsimony_score", parsimony.parsimony_score, tree, m, gaps_as_missing=gam, detail=det)
-                    ctx.ev("repeat-call-compared")
-                    if ok and got3 != want3:
-                        ctx.violation("parsimony_score|not-pure|matrix-edited-in-place-between-calls",
-                                      "after setting cell (%s, %d) to %s the same tree/matrix objects score %r, minimum is %r" % (victim, col, newsym, got3, want3), det)
-                    rows = rows3
-        # fitch_up_pass must run on a freshly scored binary rooted tree without error (reach, no oracle claimed)
-        if all(len(nd[3]) in (0, 2) for nd in ref.preorder(spec)):
-            core.call(ctx, "fitch_up_pass", parsimony.fitch_up_pass, tree.preorder_node_iter())
-        if case["i"] < 3:
-            ctx.sample({"tree": ref.to_newick(spec), "calls": journal.history(tree), "last_matrix": rows if ncol <= 12 else "%d cols" % ncol})
+        History(ctx, rng, journal, case).run()
 
 
 def directed(ctx, rng, journal):
@@ -328,7 +941,7 @@ def directed(ctx, rng, journal):
     m1 = dendropy.DnaCharacterMatrix.from_dict(dict((l, "AAA") for l in labels), taxon_namespace=ns)
     rows2 = {"T0": "ACA", "T1": "CCG", "T2": "AAG", "T3": "CAA"}
     m2 = dendropy.DnaCharacterMatrix.from_dict(rows2, taxon_namespace=ns)
-    want2 = sum(oracle_scores(spec, rows2, "dna", True, ctx, True))
+    want2 = sum(oracle_scores(spec, dict((k, list(v)) for k, v in rows2.items()), lib.FIXED["dna"], True, ctx, True))
     s1 = parsimony.parsimony_score(tree, m1)
     s2 = parsimony.parsimony_score(tree, m2)
     ctx.ev("score-compared-with-oracle")
@@ -337,12 +950,12 @@ def directed(ctx, rng, journal):
     if s1 != 0:
         ctx.violation("parsimony_score|not-minimal|dna", "constant matrix scores %r" % s1, det)
     if s2 != want2:
-        ctx.violation("parsimony_score|not-pure|depends-on-earlier-calls-on-the-same-tree",
+        ctx.violation("parsimony_score|not-pure|after-score",
                       "second matrix scores %r on a tree scored before, %r by definition" % (s2, want2), det)
     c = dendropy.Tree(tree)
     s3 = parsimony.parsimony_score(c, m1)
     if s3 != 0:
-        ctx.violation("parsimony_score|not-pure|clone-of-scored-tree", "clone scores %r for the constant matrix" % s3, det)
+        ctx.violation("parsimony_score|not-pure|after-copy:Tree(tree)", "clone scores %r for the constant matrix" % s3, det)
     ctx.sample({"kind": "directed-purity", "tree": ref.to_newick(spec), "scores": [s1, s2, s3], "oracle_second": want2})
     ctx.nontrivial(("directed", 1))
     ctx.nontrivial(("directed", 2))
